@@ -23,5 +23,6 @@ pub mod conn;
 pub mod c06;
 pub mod pkt;
 pub mod c01;
+pub mod c02;
 pub mod c03;
 pub mod c04;
